@@ -154,7 +154,7 @@ def find_quantiles(
         _description_
     """
     return list(
-        sort(
+        unique(
             np_find_quantiles(
                 df_feature[~isnan(df_feature)],  # getting rid of missing values
                 q,
